@@ -44,13 +44,15 @@ def isLeap (y : Int) : Bool := daysInYear y == 366
 
 /-- `for (int i = yd / 32; i < 13; i++) if (yd < month_days[leap][i + 1]) { month = i; break; }`
 with `month` initialised to 1 -/
-def monthLoop (leap : Bool) (yd : Int) (i : Nat) : Int :=
-  if i < 13 then
-    if yd < mdays leap (i + 1) then (i : Int) else monthLoop leap yd (i + 1)
-  else 1
-termination_by 13 - i
+def monthLoop (leap : Bool) (yd : Int) : Nat → Nat → Int
+  | 0, _ => 1
+  | fuel + 1, i =>
+    if i < 13 then
+      if yd < mdays leap (i + 1) then (i : Int) else monthLoop leap yd fuel (i + 1)
+    else 1
 
-def monthOf (leap : Bool) (yd : Int) : Int := monthLoop leap yd (Int.tdiv yd 32).toNat
+/-- at most 13 iterations (`i` runs from `yd / 32 ≥ 0` to 12) -/
+def monthOf (leap : Bool) (yd : Int) : Int := monthLoop leap yd 13 (Int.tdiv yd 32).toNat
 
 /-- `Date::calc(t)` for `t` milliseconds (an integral number of ms: `t + 0.0005` stays in the same second) -/
 def calcF (t : Int) : Fields :=
